@@ -138,6 +138,14 @@ fn check_sentence(sub: &str, text: &str, docs: &[(String, String)], st: &mut Sta
     for (_, dt) in docs {
         let a = search_text(text, dt);
         let b2 = search_text(&full, dt);
+        // (a rendered expression reference -- to_string of `[&e]` -- spells out the offsets of
+        // its tree, which differ between two spellings of one expression and are not part of
+        // the claim)
+        let renders_expref = |o: &ImpOut| matches!(o, ImpOut::Ok(j) if j.to_json().contains("<expression: "));
+        if renders_expref(&a) && renders_expref(&b2) {
+            st.class("skip:result-renders-an-expression-reference");
+            continue;
+        }
         let same = match (&a, &b2) {
             (ImpOut::Ok(x), ImpOut::Ok(y)) => x.deep_eq(y),
             (ImpOut::SearchErr(x), ImpOut::SearchErr(y)) => x.class == y.class,
